@@ -23,7 +23,7 @@ LEVEL = "exploration"
 RULE = (
     "Hypothesis model documents (depth<=3, lists, pairs, zones, META incl. nested maps, filter keys STATUS/RISKS/DECISIONS/TESTS/"
     "CI/DEPS at top level and nested; 7 of 8 shards without sections, duplicate sibling keys and holographic values) x modes "
-    "{canonical, authoring, executive, developer} x formats {octave, json, yaml, markdown} through octave_eject, and the CLI eject "
+    "{canonical, authoring, executive, developer} x formats {octave, json, yaml, markdown} through octave_eject (also 5 overlapping requests on the shared tool instance vs the same requests alone), and the CLI eject "
     "command [every 4th document]. Oracle: leaf set of each view (own readers per format) is a subset of the source's; canonical/"
     "authoring views equal the source and report lossy=false; strict subset => lossy=true; equal key paths across the four "
     "formats of one projection. Non-trivial = document with a nested filter key, a list/pair/zone value or (in the eighth "
@@ -366,6 +366,27 @@ def evaluate(doc, text, with_cli, root):
                     known = fmt != "octave" and (only_sections or has_section_or_dup)
                     sig = "C14:non-octave-formats-drop-sections-and-duplicates" if known else f"C14:unlisted:formats-disagree:{fmt}"
                     fails.setdefault(sig, f"mode={mode}: key paths of {fmt} differ from octave: only-octave={sorted(ref - other, key=repr)[:3]!r} only-{fmt}={sorted(other - ref, key=repr)[:3]!r} | source={text!r}")
+    if with_cli:
+        # overlapping requests on the one long-lived tool instance (as the server runs them): each must answer exactly like
+        # the same request made alone
+        import asyncio
+
+        combos = [("executive", "json"), ("canonical", "yaml"), ("developer", "markdown"), ("authoring", "json"), ("executive", "octave")]
+        tool = tools._tool("eject")
+
+        async def many():
+            return await asyncio.gather(*[tool.execute(content=text, schema="META", mode=m, format=f) for m, f in combos], return_exceptions=True)
+
+        try:
+            together = tools._run(many())
+            for (m, f), rt in zip(combos, together):
+                alone = tools.eject(content=text, schema="META", mode=m, format=f)
+                if isinstance(rt, BaseException) or (rt.get("lossy"), rt.get("fields_omitted"), rt.get("output")) != (alone.get("lossy"), alone.get("fields_omitted"), alone.get("output")):
+                    fails.setdefault("C14:unlisted:overlapping-eject-calls-answer-differently",
+                                     f"mode={m} format={f}: in flight with other requests lossy={getattr(rt, 'get', lambda k: rt)('lossy')!r} fields_omitted={getattr(rt, 'get', lambda k: None)('fields_omitted')!r}; alone lossy={alone.get('lossy')!r} fields_omitted={alone.get('fields_omitted')!r} | source={text!r}")
+                    break
+        except Exception as e:  # noqa: BLE001
+            fails.setdefault("C14:unlisted:overlapping-eject-raised", repr(e))
     if with_cli and root:
         path = os.path.join(root, "e.oct.md")
         with open(path, "w", encoding="utf-8") as fh:
